@@ -160,6 +160,15 @@ Theorem C11_dispatch :
 Proof. exact (fun K N ops au => @dispatch K N ops au). Qed.
 Print Assumptions C11_dispatch.
 
+(* the automatic detection (np.allclose based) accepts every exactly symmetric real matrix, dense or sparse: with the
+   default hermitian=None a real symmetric pencil is sent to the Hermitian routine (eigh / eigsh) *)
+Theorem C11_detects_real_symmetric :
+  forall (sp : bool) (A : @mat R),
+    (forall i j, (i < length A)%nat -> (j < length A)%nat -> entry A i j = entry A j i) ->
+    is_hermitian_mat opsR sp A = true.
+Proof. exact detect_symmetric_R. Qed.
+Print Assumptions C11_detects_real_symmetric.
+
 (* the flag of the first call is used by every later call of the same module (a later matrix of another class is
    decomposed with the routine of the first class: outside C11, see the report) *)
 Theorem C11_hermitian_flag_cached :
